@@ -34,7 +34,7 @@ const holdBackBid2DAppend = false
 
 // Alter is one alteration in transit.
 type Alter struct {
-	Kind string  `json:"kind"` // wire | wire-ef | out.sats | out.script | out.add | version | locktime | ord.seq | ord.unlock
+	Kind string  `json:"kind"` // wire | wire-ef | reattach | out.sats | out.script | out.add | version | locktime | ord.seq | ord.unlock
 	Idx  int     `json:"idx,omitempty"`
 	U64  uint64  `json:"u64,omitempty"`
 	U32  uint32  `json:"u32,omitempty"`
@@ -84,6 +84,22 @@ func (w *world) transit(pstx *bt.Tx) (*bt.Tx, []string, error) {
 				return nil, applied, err
 			}
 			pstx = t
+		case "reattach":
+			// the taker restores, per input, any subset of what the standard format drops -
+			// previous script (bit 2i of U32), previous value (bit 2i+1) - from the REAL
+			// previous outputs (the case's table); whatever the object carried is replaced
+			for i, in := range pstx.Inputs {
+				sp, ok := w.spent[outpoint(in.PreviousTxID(), in.PreviousTxOutIndex)]
+				if !ok || i > 15 {
+					continue
+				}
+				if a.U32>>(2*uint(i))&1 == 1 {
+					in.PreviousTxScript = script(sp.script)
+				}
+				if a.U32>>(2*uint(i)+1)&1 == 1 {
+					in.PreviousTxSatoshis = sp.sats
+				}
+			}
 		case "out.sats", "out.script":
 			if len(pstx.Outputs) == 0 || a.Idx < 0 {
 				continue
@@ -172,5 +188,20 @@ func genTransit(t *rapid.T, c *Flow) {
 			a.B = gen.FillBytes(t, rapid.IntRange(0, 5).Draw(t, "transit_unlock_len"), "transit_unlock")
 		}
 		c.Transit = append(c.Transit, a)
+		if a.Kind == "wire" && rapid.IntRange(0, 4).Draw(t, "reattach") > 0 {
+			// after the standard format: script only / value only / both / neither, per input
+			var mask uint32
+			switch rapid.IntRange(0, 4).Draw(t, "reattach_kind") {
+			case 0:
+				mask = 0x55555555 // every script, no value
+			case 1:
+				mask = 0xaaaaaaaa // every value, no script
+			case 2:
+				mask = 0xffffffff
+			default:
+				mask = rapid.Uint32().Draw(t, "reattach_mask")
+			}
+			c.Transit = append(c.Transit, Alter{Kind: "reattach", U32: mask})
+		}
 	}
 }
